@@ -9,8 +9,6 @@ pub struct RS {
 pub open spec fn rs(r: Request) -> RS {
     RS { method: r.method@, uri: r.request_uri@, version: r.http_version@, headers: hvs(r.headers@), body: r.body@ }
 }
-pub open spec fn first_line(r: Seq<u8>) -> Seq<u8> { r.subrange(0, line_len(r)) }
-pub open spec fn after_line(r: Seq<u8>) -> Seq<u8> { r.subrange(line_len(r), r.len() as int) }
 
 // one call of Request::cursor_read: (Ok?, request afterwards, bytes left in the cursor afterwards)
 //   - a line that is not UTF-8 is an error of that call (which the calling frame swallows: it goes on to read the body)
